@@ -350,3 +350,23 @@ package generator
 //@ loop 2 invariant len(g.XMLName) > 0 ==> vs_has(tags, "xml") && tags["xml"] == g.XMLName+vs_opt(!g.Required && g.IsEmptyOmitted, ",omitempty") && len(orderedTags) >= 2 && orderedTags[1] == "xml"
 //@ loop 2 invariant vs_done(2) >= 1 ==> kvPairs[0] == "json:"+strconv.Quote(g.renderMarshalTag())
 //@ loop 2 invariant len(g.XMLName) > 0 && vs_done(2) >= 2 ==> kvPairs[1] == "xml:"+strconv.Quote(g.XMLName+vs_opt(!g.Required && g.IsEmptyOmitted, ",omitempty"))
+
+// ---- C01: package names never collide with the imports of the generated code ----
+
+//@ func renameOperationPackage
+//@ props C01
+//@ safety
+//@ modifies nothing
+//@ ensures strings.HasSuffix(result, "ops") || strings.HasSuffix(result, "1")
+//@ ensures len(seenTags) > 0 ==> !swag.ContainsStringsCI(seenTags, result)
+//@ loop 1 invariant strings.HasSuffix(current, "ops") || strings.HasSuffix(current, "1")
+
+//@ func deconflictTag
+//@ props C01
+//@ modifies nothing
+//@ ensures !vs_conflictPkg(result)
+
+//@ func deconflictPrincipal
+//@ props C01
+//@ modifies nothing
+//@ ensures !vs_conflictPkg(result) && result != "principal"
